@@ -29,7 +29,10 @@ META = {
     "note": "partial: the proofs are about the modelled decoders only. What squid does with a decoded message (ACL checks, "
             "store lookups, SNMP agent tree walk, reply construction, cache-peer bookkeeping) and use-after-free in general "
             "rest on the correspondence runs: AddressSanitizer on the unit harness, crash/assert/liveness detection on the "
-            "normally built binary in the quick tier. Signed left shifts in asn_parse_int (undefined behaviour, not a memory "
+            "normally built binary (an ASan+UBSan build of the whole proxy is opt-in: thorough tier with VERIF_ASAN_SQUID=1, not "
+            "exercised so far). htcpUnpackDetail is reached only by the unit harness (end to end it needs an outstanding query "
+            "to a configured HTCP peer); snmp_core.cc / icpHandleUdp / htcpRecv themselves run only end to end, their buffer "
+            "sizes and receive limits are tied by the regenerated tables. Signed left shifts in asn_parse_int (undefined behaviour, not a memory "
             "error) are excluded from the sanitizer set. Trusted: Coq kernel, extraction, gen/gen_adversarial.cc, "
             "gen/gen_udpbufs.py (text patterns), harness/h_adversarial.cc, vlib/lab.py.",
     "technique": "Coq proof (invariant 'cursor + remaining length <= received length' carried through every reader, induction on "
@@ -332,12 +335,19 @@ def gen_cases(rng, n):
         add("htcp.spec", "htcp", fixed + cstr16(b"H" * (total - len(fixed) - 2)))
         add("htcp.detail", "htcp", cstr16(b"") + cstr16(b"") + cstr16(b"C" * (total - 6)))
     # --- exact-size buffers: every read past the received bytes is visible (the model must predict each of them)
-    nexact = 0
-    for _ in range(min(160, max(40, n // 60))):
-        m = snmp_message(rng)
-        if rng.random() < 0.45 and nexact < 70:
-            m = m[:rng.randrange(1, len(m))]; nexact += 1
+    for k in range(min(240, max(60, n // 40))):
+        r = rng.random()
+        if r < 0.4:
+            m = snmp_message(rng)
+        elif r < 0.8:     # every enclosing length is consistent, the last element is cut short: the readers look past the end
+            m = snmp_message(rng, community=b"public", varbinds=tlv(0x30, enc_oid(rng.choice(OIDS[:6])) + snmp_value(rng)) + rng.choice(SNMP_TAILS))
+        elif r < 0.9:
+            m = snmp_message(rng); m = m[:rng.randrange(1, len(m))]
+        else:
+            m = bytes(rng.choice([0x30, 0x02, 0x04, 0x84, 0x81, 0x00, 0xff, rng.randrange(256)]) for _ in range(rng.choice([1, 2, 3, 4, 6])))
         out.append("snmp.exact %s" % hx(m))
+        if r >= 0.4 and r < 0.8:
+            add("snmp.udp", "snmp", m)
     # --- structured + mutation streams
     while len(out) < n:
         r = rng.random()
@@ -467,7 +477,28 @@ def free_udp_port():
     return p
 
 
-def start_squid(L, extra=""):
+def maybe_asan_tree(L, res, tier):
+    """thorough tier with VERIF_ASAN_SQUID=1: rebuild the lab's private copy of the tree with ASan+UBSan and run squid from
+    it (about half an hour; reports land in squid's stderr file, which log_findings() scans). Returns extra env."""
+    if tier != "thorough" or not os.environ.get("VERIF_ASAN_SQUID"):
+        return None
+    import shutil
+    from vlib.common import sh
+    tree = os.path.join(L.dir, "asan-tree")
+    rc, o, e = sh(["rsync", "-a", "--exclude", ".git", L.tree + "/", tree + "/"], timeout=1800)
+    if rc != 0:
+        raise lab.LabError("rsync for the ASan tree failed: " + e[-400:])
+    sh(["make", "clean"], cwd=tree, timeout=3600)
+    flags = "-O1 -g -fsanitize=address,undefined -fno-sanitize=shift -fno-omit-frame-pointer -Wno-error"
+    rc, o, e = sh(["make", "-j16", "CXXFLAGS=" + flags, "CFLAGS=" + flags, "LDFLAGS=-fsanitize=address,undefined"], cwd=tree, timeout=4 * 3600)
+    if rc != 0 or not os.path.exists(os.path.join(tree, "src", "squid")):
+        raise lab.LabError("ASan build of squid failed: " + (o + e)[-1500:])
+    L.tree = tree
+    res.extra["asan_squid"] = True
+    return {"ASAN_OPTIONS": "detect_leaks=0:abort_on_error=1:log_path=stderr", "UBSAN_OPTIONS": "print_stacktrace=1:halt_on_error=1"}
+
+
+def start_squid(L, extra="", env=None):
     ports = {"icp": free_udp_port(), "htcp": free_udp_port(), "snmp": free_udp_port()}
     conf = """
 icp_port %(icp)d
@@ -479,7 +510,7 @@ htcp_clr_access allow all
 acl snmppublic snmp_community public
 snmp_access allow all
 """ % ports + extra
-    sq = L.squid(extra_conf=conf)
+    sq = L.squid(extra_conf=conf, env=env)
     return sq, ports
 
 
@@ -596,7 +627,7 @@ def e2e_stage(res, L, tier, runner, n, seed_salt=39):
     cases = ["e2e.%s %d %d %s" % (p, B[p][0], B[p][1], hx(d)) for p, d in items]
     model = corr.run_lines(runner, cases)
     org = L.origin()
-    sq, ports = start_squid(L)
+    sq, ports = start_squid(L, env=maybe_asan_tree(L, res, tier))
     _state["sq"] = sq
     found = 0
     obs = [None] * len(items)
